@@ -10,7 +10,10 @@ state construction path and `numpy.linalg.inv(_get_implicit_term_matrix(…))` p
 compared with the model's action applied to the numbers produced under a first scale; the real
 `explicit_terms` under the second scale is compared with the model's tendency action applied to the real
 `explicit_terms` under the first.  Named hypotheses of the theorems (`OpsLaws`, `OpsScaled`, `ConstMode`,
-`HorizScaled.lsp`) are validated on real grids.
+`HorizScaled.lsp`, `ConstProj`) are validated on real grids; so is what the filter theorems
+(`wavenumber_filter_scaled`, `pe_history_commutes_step_filters`) say about the real filters: they multiply the
+coefficients of total wavenumber l by s[l], the factor at l = 0 is exactly 1.0 for cutoff >= 0 / order >= 1, scalar
+leaves are left alone, and the scaling arrays of the step filters are the same under two scales.
 
 Search (sentinel on the real code): the same SI problem (SI constants, radius, rotation, SI state, SI time step) is
 built under DEFAULT_SCALE and under random scales (each base unit multiplied by 10^U(-3,7)); explicit_terms,
@@ -47,6 +50,10 @@ NOTE = ('theorems are about the Lean models; the horizontal operators are abstra
         'abstractly (K-module of states, or any +/0/scalar-action with the affine law on the proper states) and '
         'instantiated for the four primitive-equation classes on tree_math vectors (schemes, histories with filters, '
         'leapfrog); for shallow water and Held-Suarez the step theorem applies through the abstract form only. '
+        'The filter hypothesis of histories (FilterScaled) is proved for multipliers of the total wavenumber with factor '
+        'one at l = 0, hence for exponential_step_filter with cutoff >= 0 and horizontal_diffusion_step_filter with '
+        'order >= 1 (hypotheses ConstProj and exp 0 = 1; that the real filters are such multipliers with factor '
+        'exactly 1.0 at l = 0 is validated here, keys FilterScaled.*, ConstProj); leapfrog step filters: not covered. '
         'Tolerances: explicit/implicit terms agree to <= 1e-13 over all measured scales (products of '
         'powers of the unit ratios commute with every operation up to one rounding each), tolerance 1e-10; '
         'implicit_inverse inherits the rounding error of numpy.linalg.inv on S M S^-1, which is not invariant under '
@@ -313,14 +320,63 @@ def _hypotheses(ctx, env):
                    f'{name} does not scale like radius^-1', inp)
       ctx.expect(g1.cos_lat.tolist() == g2.cos_lat.tolist() and rel(g1.sec2_lat, g2.sec2_lat) == 0,
                  'OpsScaled.tables', 'nodal tables depend on the radius', inp)
-      # FilterScaled: the step filters leave the constant mode alone (factor exactly 1 at total wavenumber 0)
+      # ConstProj: the constant field is a pure mode of total wavenumber 0 (lproj l = selection of index l of the last
+      # modal axis, as in the driver's `lprojOf`), and the grid has that wavenumber
+      lw = np.asarray(g1.modal_axes[1])
+      ctx.expect(ms[-1] >= 1 and lw[0] == 0 and one[0, 0] != 0.0 and np.count_nonzero(one[:, 1:]) == 0
+                 and np.count_nonzero(one[1:, 0]) == 0,
+                 'ConstProj', 'the constant field is not a pure (0, 0) coefficient / total wavenumbers do not start at 0', inp)
+      ctx.expect(float(np.asarray(g1.laplacian_eigenvalues)[0]) == 0.0 and float(np.asarray(g2.laplacian_eigenvalues)[0]) == 0.0,
+                 'ConstProj.eigenvalue0', 'the Laplacian eigenvalue of total wavenumber 0 is not exactly 0', inp)
+      # FilterScaled (discharged in Lean by `wavenumber_filter_scaled` / `pe_history_commutes_step_filters`): the
+      # filters of filtering.py and the step filters of time_integration.py, on the domain of the theorem
+      # (cutoff >= 0, order >= 1), are multipliers of the total wavenumber (`lMul`), additive, homogeneous, with
+      # factor EXACTLY 1.0 at total wavenumber 0, and leave a scalar leaf (sim_time) alone
       from dinosaur import filtering
-      for fname, flt in (('exponential', filtering.exponential_filter(g1, float(rng.uniform(1, 30)), 3, 0.3)),
-                         ('diffusion', filtering.horizontal_diffusion_filter(g1, float(rng.uniform(0.01, 1)), 2))):
+      dt_ = float(rng.uniform(0.01, 1.0))
+      cut = float(rng.choice([0.0, 0.3, float(rng.uniform(0, 0.9))]))
+      p_exp = int(rng.choice([1, 3, 18]))
+      p_dif = int(rng.choice([1, 2, 4]))
+      rk = lambda f: (lambda tree: f(None, tree))
+      cand = (('exponential_filter', filtering.exponential_filter(g1, float(rng.uniform(1, 30)), p_exp, cut)),
+              ('horizontal_diffusion_filter', filtering.horizontal_diffusion_filter(g1, float(rng.uniform(0.01, 1)), p_dif)),
+              ('exponential_step_filter',
+               rk(env.ti.exponential_step_filter(g1, dt_, tau=float(rng.uniform(0.5, 20)) * dt_, order=p_exp, cutoff=cut))),
+              ('exponential_step_filter[defaults]', rk(env.ti.exponential_step_filter(g1, dt_))),
+              # order 1, cutoff 0: the corner of the domain where a factor != 1 at l = 0 is largest in float64
+              ('exponential_step_filter[order 1, cutoff 0]',
+               rk(env.ti.exponential_step_filter(g1, dt_, tau=float(rng.uniform(0.5, 2)) * dt_, order=1, cutoff=0))),
+              ('horizontal_diffusion_step_filter',
+               rk(env.ti.horizontal_diffusion_step_filter(g1, dt_, tau=float(rng.uniform(0.5, 20)) * dt_, order=p_dif))),
+              ('horizontal_diffusion_step_filter[radius l]',
+               rk(env.ti.horizontal_diffusion_step_filter(g2, dt_, tau=float(rng.uniform(0.5, 20)) * dt_, order=p_dif))))
+      for fname, flt in cand:
+        finp = dict(filter=fname, cutoff=cut, order_exp=p_exp, order_diff=p_dif, dt=dt_, **inp)
+        ctx.dist['filter-hyp:' + fname] += 1
+        full = np.asarray(flt(J(np.ones(ms))))
+        sc = full[0, :]
+        ctx.expect(full.shape == tuple(ms) and bool(np.all(full == sc[None, :])) and len(sc) == ms[-1],
+                   'FilterScaled.lmul-shape', f'{fname}: the scaling is not one factor per total wavenumber', finp)
+        ctx.expect(float(sc[0]) == 1.0, 'FilterScaled.scaling-at-l0',
+                   f'{fname}: the factor at total wavenumber 0 is {float(sc[0])!r}, not exactly 1.0', finp)
+        ctx.expect(bool(np.all(np.asarray(flt(J(x))) == sc[None, :] * x)), 'FilterScaled.lmul',
+                   f'{fname}: the filter is not the multiplication of the coefficients of total wavenumber l by s[l]', finp)
         ctx.expect(np.abs(np.asarray(flt(J(7.5 * one))) - 7.5 * one).max() == 0.0, 'FilterScaled.const-mode',
-                   f'{fname} filter changes the constant mode', inp)
+                   f'{fname} filter changes the constant mode', finp)
         ctx.expect(rel(flt(J(k * x)), k * np.asarray(flt(J(x)))) < HYP_TOL, 'FilterScaled.smul',
-                   f'{fname} filter is not homogeneous', inp)
+                   f'{fname} filter is not homogeneous', finp)
+        ctx.expect(rel(flt(J(x + y)), np.asarray(flt(J(x))) + np.asarray(flt(J(y)))) < HYP_TOL, 'FilterScaled.add',
+                   f'{fname} filter is not additive', finp)
+        lev = np.arange(ms[-1] + 1.0)            # a 1-D leaf that cannot be broadcast with the scaling
+        tree = flt(dict(a=J(x), sim_time=J(3.25), lev=J(lev)))
+        ctx.expect(float(tree['sim_time']) == 3.25 and np.asarray(tree['lev']).tolist() == lev.tolist()
+                   and bool(np.all(np.asarray(tree['a']) == sc[None, :] * x)),
+                   'FilterScaled.scalar-leaf', f'{fname} filter changes a leaf whose shape the scaling does not preserve', finp)
+      # outside the domain of the theorem the factor at l = 0 is NOT one (the Lean negative witness
+      # `negative_cutoff_breaks_filter`); recorded, not asserted: it is a statement about inputs the theorem excludes
+      neg = float(np.asarray(filtering.exponential_filter(g1, 16., 2, -0.25)(J(np.ones(ms))))[0, 0])
+      neg0 = float(np.asarray(filtering.horizontal_diffusion_filter(g1, 0.5, 0)(J(np.ones(ms))))[0, 0])
+      ctx.dist['filter-hyp:outside-domain factor at l=0 ' + ('!= 1' if (neg != 1.0 and neg0 != 1.0) else '== 1')] += 1
       # HorizScaled.lsp: adding c * (pure constant mode) adds c at every node
       c = float(rng.uniform(-40, 40))
       nod = np.asarray(g1.to_nodal(J(x + c * one))) - np.asarray(g1.to_nodal(J(x)))
@@ -407,6 +463,10 @@ def _pe_class(ctx, env, cls, moist, with_time, stats, rep=0, ci=0):
                                                 order=3, cutoff=0.3),
                  env.ti.horizontal_diffusion_step_filter(
                      s.grid, s.dt, tau=float(s.specs.nondimensionalize(tau2_si * env.units.s)), order=2)]
+      # `pe_history_commutes_step_filters` (i): under the other scale the step filters compute the SAME scaling arrays
+      # (dt and tau are both times, the radius enters through the eigenvalues only); factor exactly 1.0 at l = 0
+      ones = env.jnp.ones(s.grid.modal_shape)
+      res['_filter_scalings'] = [np.asarray(f(None, ones))[0, :] for f in filters]
       traj_bound = {}
       if bi <= 1 or kname == 'moderate':      # default, the first wide scale, every moderate scale
         for integ in integrators:
@@ -426,6 +486,15 @@ def _pe_class(ctx, env, cls, moist, with_time, stats, rep=0, ci=0):
         _const_mode(ctx, env, s, eq, with_time, inp)
         ctx.case((cls, 'default', repr(pj)[:200]), nontrivial=False)
         continue
+      for fi, fname in enumerate(('exponential_step_filter', 'horizontal_diffusion_step_filter')):
+        sa, sb = ref['res']['_filter_scalings'][fi], res['_filter_scalings'][fi]
+        d = float(np.abs(sa - sb).max() / np.abs(sa).max()) if sa.shape == sb.shape else float('inf')
+        ctx.expect(d <= 1e-12, f'{cls}:step-filter-scaling', f'{fname}: the scaling arrays under two scales differ by {d:.3e}',
+                   dict(filter=fname, err=d, **inp))
+        ctx.expect(float(sa[0]) == 1.0 and float(sb[0]) == 1.0 and len(sb) == s.grid.modal_shape[-1],
+                   'FilterScaled.scaling-at-l0', f'{fname}: factor at total wavenumber 0 is not exactly 1.0 '
+                   f'({float(sa[0])!r}, {float(sb[0])!r})', dict(filter=fname, **inp))
+        stats['filter-scaling'] = max(stats.get('filter-scaling', 0.0), d)
       for op in ('explicit', 'implicit'):
         ctx.case((cls, op, tuple(base), prob['sim_time']), nontrivial=nontrivial, sample=dict(cls=cls, op=op, ratio=inp['ratio']))
         e = _check_terms(ctx, ref['res'][op], res[op], f'{cls}:{op}_terms', f'{cls}.{op}_terms under two scales', inp,
@@ -439,6 +508,8 @@ def _pe_class(ctx, env, cls, moist, with_time, stats, rep=0, ci=0):
                            f'{cls}:implicit_inverse', f'{cls}.implicit_inverse(eta={frac} dt) under two scales',
                            dict(frac=frac, **inp), tol)
           stats['inverse/tol'] = max(stats.get('inverse/tol', 0.0), e / tol)
+          stats['inverse:max(tol)'] = max(stats.get('inverse:max(tol)', 0.0), tol)
+          stats['inverse:max(err)'] = max(stats.get('inverse:max(err)', 0.0), e)
         rest = {k: v for k, v in res[f'inverse{frac}'].items() if k not in bounds[frac]}
         _check_terms(ctx, {k: ref['res'][f'inverse{frac}'][k] for k in rest}, rest, f'{cls}:implicit_inverse',
                      f'{cls}.implicit_inverse (untouched leaves)', dict(frac=frac, **inp), TOL_TERMS)
@@ -452,6 +523,8 @@ def _pe_class(ctx, env, cls, moist, with_time, stats, rep=0, ci=0):
         e = _check_terms(ctx, ref['res'][f'traj:{integ}'], res[f'traj:{integ}'], f'{cls}:trajectory:{integ}',
                          f'3 filtered steps of {integ} under two scales', dict(integrator=integ, **inp), tol)
         stats['traj/tol'] = max(stats.get('traj/tol', 0.0), e / tol)
+        stats['traj:max(tol)'] = max(stats.get('traj:max(tol)', 0.0), tol)
+        stats['traj:max(err)'] = max(stats.get('traj:max(err)', 0.0), e)
   return prob
 
 
@@ -498,6 +571,8 @@ def _held_suarez(ctx, env, stats):
         e = _check_terms(ctx, ref['res']['traj'], res['traj'], 'HeldSuarezForcing:trajectory',
                          '3 steps of imex_rk_sil3 on primitive equations + Held-Suarez under two scales', inp, tol)
         stats['traj/tol'] = max(stats.get('traj/tol', 0.0), e / tol)
+        stats['traj:max(tol)'] = max(stats.get('traj:max(tol)', 0.0), tol)
+        stats['traj:max(err)'] = max(stats.get('traj:max(err)', 0.0), e)
 
 
 def _shallow_water(ctx, env, stats):
@@ -689,7 +764,7 @@ def run(ctx: common.Ctx):
                         'DinoProofs/Lemmas/ScalingTerms.lean', 'DinoProofs/Lemmas/ScalingMoist.lean',
                         'DinoProofs/Lemmas/ScalingInv.lean', 'DinoProofs/Lemmas/ScalingSW.lean',
                         'DinoProofs/Lemmas/ScalingHS.lean', 'DinoProofs/Lemmas/ScalingStep.lean',
-                        'DinoProofs/Lemmas/ScalingTraj.lean',
+                        'DinoProofs/Lemmas/ScalingTraj.lean', 'DinoProofs/Lemmas/ScalingFilter.lean',
                         'Dino/Scaling.lean', 'Dino/ScalingDrv.lean'])
 
   import time
@@ -730,6 +805,14 @@ def run(ctx: common.Ctx):
       tm['factories'] = tm.get('factories', 0.0) + time.time() - t0
   ctx.notes.append('seconds: ' + ', '.join(f'{k}={v:.0f}' for k, v in tm.items()))
   ctx.notes.append('largest measured differences: ' + ', '.join(f'{k}={v:.2e}' for k, v in sorted(stats.items())))
+  ctx.notes.append('effective tolerances: explicit/implicit terms, Held-Suarez, shallow water terms, state factories '
+                   f'{TOL_TERMS:.0e} (radiation {10 * TOL_TERMS:.0e}); shallow-water trajectories {TOL_TRAJ:.0e}; '
+                   f'implicit_inverse {TOL_FLOOR:.0e} + 4 x a-posteriori bound, largest value used in this run '
+                   f'{stats.get("inverse:max(tol)", float("nan")):.2e} (largest error {stats.get("inverse:max(err)", float("nan")):.2e}); '
+                   f'primitive-equation / Held-Suarez trajectories {TOL_TRAJ:.0e} + 30 x summed a-posteriori bound, largest '
+                   f'value used in this run max(tol) = {stats.get("traj:max(tol)", float("nan")):.2e} (largest error '
+                   f'{stats.get("traj:max(err)", float("nan")):.2e}, largest ratio error/tolerance '
+                   f'{stats.get("traj/tol", float("nan")):.2e})')
 
   if not ctx.quick:
     ctx.leanchecker(['DinoProofs.Properties.C12'])
